@@ -1,8 +1,6 @@
 # Per-property claims; edited as checks are built. Executed by gen_manifest.py.
 PENDING = "check not built yet in this round (planned in DESIGN.md); not claimed until it runs clean on the unchanged tree"
 
-for _p in ["C11"]:
-    na(_p, PENDING)
 
 na("C06", "quantifies over every byte prefix of a runtime tape and over archive/tar's behaviour on arbitrary bytes plus a termination argument for the resynchronisation loop; no sound dataflow/typestate rule in reach decides any clause of it (the only structural ingredient, earlier records are never touched, is claimed under C05)")
 
@@ -73,3 +71,8 @@ claim("C05",
       "Decides the append-only discipline structurally: who may open, truncate or write the drive (path and handle provenance, O_APPEND, overwrite provenance), that Delete/Move finish all lookups and preparation before the first WriteHeader, that the trailer logic sees dirty=true whenever a header was written, and that freshly built and wrapper headers are PAX. That an independent tar reader iterates the result is not decided.",
       "who-may-touch provenance rules + go/cfg success-edge domination and may-dataflow (trailer flag) + constant/flag provenance",
       "DESIGN.md §3 C05")
+
+claim("C11",
+      "Decides a static Eraser-style lockset for the handle and tape-manager state (every access shares a held mutex with every write, over all call paths from the exported filesystem/file methods and the goroutines they start, context-sensitive on the held set with returns-held summaries) and acyclicity of the acquired-while-held graph including the wait-for edge of the pipe-feeding goroutine (two known cycles: the documented reader-holds-the-drive deadlock). Linearizability and the index store's cached root are not decided.",
+      "context-sensitive static lockset + lock-order graph (go/cfg must-dataflow per function, call-graph exploration keyed by held set) with a pipe wait-for edge",
+      "DESIGN.md §3 C11")
